@@ -374,7 +374,8 @@ pub mod mpsc {
             buffer > 0, /*L:mpsc.channel.capacity_positive*/
         ensures
             r.0.chan() == r.1.chan(),
-            final(w).log() == old(w).log().push(Eff::NewChan(r.0.chan(), buffer as nat)),
+            final(w).log() == old(w).log(),   // creating a channel is not an observable effect; its bound is a ghost attribute
+            r.0.cap() == buffer as nat,
             r.0.chan() >= old(w).chan_floor(),
             final(w).chan_floor() > r.0.chan(),
             same_ambient_but_chan(*old(w), *final(w)),
@@ -382,6 +383,8 @@ pub mod mpsc {
 
     impl<T> Sender<T> {
         pub uninterp spec fn chan(&self) -> int;
+        /// the bound the channel was created with (A1: occupancy never exceeds it)
+        pub uninterp spec fn cap(&self) -> nat;
     }
     impl<T> WeakSender<T> {
         pub uninterp spec fn chan(&self) -> int;
@@ -439,7 +442,7 @@ pub mod mpsc {
     }
     impl<T> Clone for Sender<T> {
         #[verifier::external_body]
-        fn clone(&self) -> (r: Self) ensures r.chan() == self.chan() { unimplemented!() }
+        fn clone(&self) -> (r: Self) ensures r.chan() == self.chan(), r.cap() == self.cap() { unimplemented!() }
     }
     impl<T> WeakSender<T> {
         /// A4: Some iff a strong sender still exists at this moment
@@ -527,7 +530,7 @@ pub mod oneshot {
     pub fn channel<T>(w: &mut World) -> (r: (Sender<T>, Receiver<T>))
         ensures
             r.0.req() == r.1.req(),
-            final(w).log() == old(w).log().push(Eff::NewReq(r.0.req())),
+            final(w).log() == old(w).log(),   // creating the reply channel is not an observable effect
             same_ambient(*old(w), *final(w)),
     { unimplemented!() }
 
@@ -637,7 +640,8 @@ impl AtomicU64 {
     #[verifier::external_body]
     pub fn fetch_add(&self, val: u64, order: Ordering, w: &mut World) -> (r: u64)
         ensures
-            final(w).log() == old(w).log().push(Eff::FetchAdd(self.cell(), val)),
+            // the id allocator's increments are not an observable effect (freshness is stated through id_floor)
+            final(w).log() == (if self.cell() == cell_ACTOR_IDS() { old(w).log() } else { old(w).log().push(Eff::FetchAdd(self.cell(), val)) }),
             self.cell() == cell_ACTOR_IDS() ==> (r as int >= old(w).id_floor() && final(w).id_floor() == r as int + val as int),
             self.cell() != cell_ACTOR_IDS() ==> final(w).id_floor() == old(w).id_floor(),
             self.cell() == cell_DEAD_LETTER_COUNT() ==> final(w).dl_count() == old(w).dl_count() + val as nat,
